@@ -700,6 +700,8 @@ func (vc *FuncVC) storeLoc(st *State, l *Loc, v *Val) {
 		return
 	}
 	if strings.HasPrefix(l.Key, "global.") {
+		// package-level variables are shared state: no function under contract may assign one (C06, C18)
+		vc.oblige("F", fmt.Sprintf("global-write#%d", vc.ord("global-write")), vc.reach[vc.curBlock], TFalse, vc.propTags("C06", "C18"), vc.curPos, "no package-level variable is assigned: "+strings.TrimPrefix(l.Key, "global."))
 		vc.unsupported("store to package-level variable %s", l.Key)
 		return
 	}
